@@ -19,6 +19,9 @@ import traceback
 
 VERIF = os.path.dirname(os.path.dirname(os.path.abspath(__file__)))
 REPO = os.environ.get("VERIF_REPO", "/repo")
+# where evidence/ and replays/ are written: /verif itself, except for experiments on patched copies of the repository
+# (tools/seed_matrix.sh), which must not overwrite the evidence of the real tree
+OUT = os.environ.get("VERIF_OUT", VERIF)
 SRC = os.path.join(REPO, "src", "cutadapt")
 PY = "/venv/bin/python"
 NPROC = int(os.environ.get("VERIF_NPROC", str(min(16, os.cpu_count() or 1))))
@@ -386,8 +389,8 @@ class Result:
             "wall_s": round(time.time() - self.t0, 2),
             "violations": len(new),
         }
-        os.makedirs(os.path.join(VERIF, "evidence"), exist_ok=True)
-        evpath = os.path.join(VERIF, "evidence", f"{self.prop}.json")
+        os.makedirs(os.path.join(OUT, "evidence"), exist_ok=True)
+        evpath = os.path.join(OUT, "evidence", f"{self.prop}.json")
         tmp = evpath + f".tmp{os.getpid()}"
         with open(tmp, "w") as f:
             json.dump(ev, f, indent=1, default=str)
@@ -396,7 +399,7 @@ class Result:
         status = 0
         if new:
             status = 1
-            rdir = os.path.join(VERIF, "replays", self.prop)
+            rdir = os.path.join(OUT, "replays", self.prop)
             os.makedirs(rdir, exist_ok=True)
             # one artefact per distinct signature, the first (= simplest, enumeration is simplest-first)
             done = set()
@@ -453,7 +456,7 @@ def replay_by_rerun(mod, prop, path):
     sig = v.get("sig")
     t0 = time.time()
     mod.run("quick")
-    rdir = os.path.join(VERIF, "replays", prop)
+    rdir = os.path.join(OUT, "replays", prop)
     again = False
     if os.path.isdir(rdir):
         for n in os.listdir(rdir):
